@@ -65,6 +65,8 @@ struct RecipeSpec {
     servings: u8,
     reference: u8,
     inline: bool,
+    /// units written after a blank instead of `%` (advanced-units spelling; only meaningful with that extension)
+    space_sep: bool,
 }
 
 fn first_serving(s: u8) -> u32 {
@@ -104,6 +106,8 @@ fn source(r: &RecipeSpec, vals: &[QSpec]) -> String {
                 let lock = if c.lock { "=" } else { "" };
                 if c.unit.is_empty() {
                     format!("{{{lock}{}}}", vals[v].text)
+                } else if r.space_sep && vals[v].numeric {
+                    format!("{{{lock}{} {}}}", vals[v].text, c.unit)
                 } else {
                     format!("{{{lock}{}%{}}}", vals[v].text, c.unit)
                 }
@@ -241,6 +245,10 @@ fn check(env: &Env, pi: usize, spec: &RecipeSpec, local: &mut Local) -> Vec<Viol
     let conv = parser.converter();
     let src = source(spec, &env.vals);
     let mut out = Vec::new();
+    if spec.space_sep && !parser.extensions().contains(Extensions::ADVANCED_UNITS) {
+        local.outcome("unit without `%` needs the advanced-units extension (skipped)");
+        return out;
+    }
     let base = parser.parse(&src);
     if !base.is_valid() {
         local.outcome("source not valid under this configuration (outside the property)");
@@ -430,7 +438,7 @@ fn specs(tier: Tier, vals: &[QSpec]) -> Vec<RecipeSpec> {
             for lock in [false, true] {
                 for reference in 0..=4u8 {
                     for servings in [0u8, 2, 6] {
-                        v.push(RecipeSpec { comps: vec![CompSpec { kind: 'i', value: Some(val), unit, lock }], servings, reference, inline: false });
+                        v.push(RecipeSpec { comps: vec![CompSpec { kind: 'i', value: Some(val), unit, lock }], servings, reference, inline: false, space_sep: false });
                     }
                 }
             }
@@ -438,14 +446,14 @@ fn specs(tier: Tier, vals: &[QSpec]) -> Vec<RecipeSpec> {
     }
     // no quantity
     for servings in 0..=9u8 {
-        v.push(RecipeSpec { comps: vec![CompSpec { kind: 'i', value: None, unit: "", lock: false }], servings, reference: 0, inline: true });
+        v.push(RecipeSpec { comps: vec![CompSpec { kind: 'i', value: None, unit: "", lock: false }], servings, reference: 0, inline: true, space_sep: false });
     }
     // cookware and timers
     for val in 0..nv {
         for lock in [false, true] {
-            v.push(RecipeSpec { comps: vec![CompSpec { kind: 'c', value: Some(val), unit: "", lock }], servings: 2, reference: 0, inline: false });
+            v.push(RecipeSpec { comps: vec![CompSpec { kind: 'c', value: Some(val), unit: "", lock }], servings: 2, reference: 0, inline: false, space_sep: false });
             for unit in TIME_UNITS {
-                v.push(RecipeSpec { comps: vec![CompSpec { kind: 't', value: Some(val), unit, lock }], servings: 3, reference: 0, inline: false });
+                v.push(RecipeSpec { comps: vec![CompSpec { kind: 't', value: Some(val), unit, lock }], servings: 3, reference: 0, inline: false, space_sep: false });
             }
         }
     }
@@ -467,12 +475,20 @@ fn specs(tier: Tier, vals: &[QSpec]) -> Vec<RecipeSpec> {
                             servings,
                             reference: (val % 5) as u8,
                             inline: true,
+                            space_sep: false,
                         });
                     }
                 }
             }
         }
     }
+    // the same specs with the unit after a blank instead of `%`, wherever that changes the source
+    let spaced: Vec<RecipeSpec> = v
+        .iter()
+        .filter(|r| r.comps.iter().any(|c| !c.unit.is_empty() && c.value.map(|i| vals[i].numeric).unwrap_or(false)))
+        .map(|r| RecipeSpec { space_sep: true, ..r.clone() })
+        .collect();
+    v.extend(spaced);
     v
 }
 
@@ -493,7 +509,7 @@ pub fn replay(case: &J) -> Vec<Violation> {
 
 pub fn run(tier: Tier) {
     let c = ctx();
-    c.set_rule("complete cross product: 15 written values (integers, decimals, fractions, mixed numbers, ranges, fraction ranges, text) x 20 units (none, metric, imperial, time, temperature, unknown) x lock x component kind (ingredient with each kind of reference, cookware, timer) x declared servings (none, `2`, `2|4`, `3 people|6`, front matter list and number) x 4 configurations (extended, without advanced units, empty converter, canonical) x 9 factors (1/2, 1, 2, 3, 1/3, 10, 1e-3, 1e6, 7.3) + 3 serving targets; oracle: default scaling returns the written value and unit; for each factor the amount (value incl. fraction error x unit factor from an independent table) of numeric unlocked ingredient quantities is f x the written amount, everything else (text, locked, cookware, timers, inline quantities, names, relations, steps, metadata) is unchanged; outcome vectors line up and name the case; scale_to_servings(n) == scale(n / first); non-trivial = valid recipe specs; distinct = distinct (source, configuration)");
+    c.set_rule("complete cross product: 15 written values (integers, decimals, fractions, mixed numbers, ranges, fraction ranges, text) x 20 units (none, metric, imperial, time, temperature, unknown) x lock x unit separator (`%`; a blank under the advanced-units extension) x component kind (ingredient with each kind of reference, cookware, timer) x declared servings (none, `2`, `2|4`, `3 people|6`, front matter list and number) x 4 configurations (extended, without advanced units, empty converter, canonical) x 9 factors (1/2, 1, 2, 3, 1/3, 10, 1e-3, 1e6, 7.3) + 3 serving targets; oracle: default scaling returns the written value and unit; for each factor the amount (value incl. fraction error x unit factor from an independent table) of numeric unlocked ingredient quantities is f x the written amount, everything else (text, locked, cookware, timers, inline quantities, names, relations, steps, metadata) is unchanged; outcome vectors line up and name the case; scale_to_servings(n) == scale(n / first); non-trivial = valid recipe specs; distinct = distinct (source, configuration)");
     let e = Arc::new(env());
     let all = Arc::new(specs(tier, &e.vals));
     let np = e.parsers.len() as u64;
